@@ -220,6 +220,17 @@ func ruleC02MetaSymmetry(r *Run, p *Program, rule string) {
 			rd[s.Family] = true
 		}
 	}
+	// segment metadata: written under the name the segment was opened with, read under the name it is opened with
+	for k := range wr {
+		if b, suf := segFamily(k); b == "SEGNAME" {
+			wr["SEG"+suf] = true
+		}
+	}
+	for k := range rd {
+		if b, suf := segFamily(k); b == "DIRENT" || b == "SEGCANON" {
+			rd["SEG"+suf] = true
+		}
+	}
 	for _, fam := range []string{"db.pmt", "index.pmt", "SEG.pmt"} {
 		r.check(wr[fam] && rd[fam], rule, "name:"+fam, "", "metadata family "+fam+" is written at Close and read at Open under the same name", fmt.Sprintf("metadata family %s: written=%v read=%v - Close and Open do not agree on the file name", fam, wr[fam], rd[fam]))
 	}
